@@ -203,7 +203,7 @@ func c01Prop(c Case) common.Result {
 func genC01(rt *rapid.T) Case {
 	o := GenOpts{Actor: true, Twins: true, ByView: true, MaxSteps: 140}
 	cfg := GenConfig(rt, o)
-	return Case{Cfg: cfg, Steps: GenSteps(rt, cfg, o)}
+	return Case{Cfg: cfg, Steps: GenSchedule(rt, cfg, o)}
 }
 
 func TestC01Ledgers(t *testing.T) {
